@@ -40,6 +40,9 @@ BIAS = dict(variants=('NT', 'FT'), custom_num=0, chips=('int',), rakes=('none',)
 def run(ch, ctx):
     cfg = gen_config(ch, BIAS)
     cfg['bring_in'] = 0
+    if cfg['variant'] == 'NT' and ch.chance('c17.min_bet', 1, 3):
+        cfg['min_bet'] = ch.choice('c17.min_bet.value', (cfg['bb'] // 2, cfg['bb'] * 2))     # a minimum bet other than the big blind
+        ctx.count('min_bet_differs_from_big_blind')
     world = None
     compression = bool(ch.pick('c17.compression', 2))
     hand_number = ch.pick('c17.hand', 1000)
@@ -131,7 +134,8 @@ def check(world, cfg, compression, hand_number, partial, ctx):
     if line != want:
         raise Violation('C17.pluribus', f'Pluribus line {line!r}, the hand played implies {want!r}', rule='pluribus')
     stack = conv(cfg, cfg['stacks'][0])
-    game0 = pokerkit.NoLimitTexasHoldem((), cfg['ats'], 0, tuple(conv(cfg, b) for b in cfg['blinds']), conv(cfg, cfg['bb']))
+    game0 = pokerkit.NoLimitTexasHoldem((), cfg['ats'], 0, tuple(conv(cfg, b) for b in cfg['blinds']),
+                                        conv(cfg, cfg.get('min_bet', cfg['bb'])))
     with warnings.catch_warnings():
         warnings.simplefilter('ignore')
         try:
